@@ -108,6 +108,57 @@ def build_inner(ctx, nw, ni, share, with_b, mark, max_idle, idle_timeout=None, o
     return inner
 
 
+def extract_pop(p, m):
+    """the counterexample's idle list, in release order, as open/closed flags; all-open lists replay through the
+    burst family, lists with entries closed by the peer through pool_idle_closed"""
+    ents = getattr(p.ctx, "idle_pre", [])
+    flags = []
+    for _, c in ents:
+        v = m.eval(c.is_open, model_completion=True) if z3.is_expr(c.is_open) else c.is_open
+        flags.append("1" if z3.is_true(v) or v is True else "0")
+    ctx = p.ctx
+    r = p.value
+    if getattr(ctx, "has_to", False) and getattr(r, "variant", "") == "Some" and r.f[0].cid < len(ents):
+        # a connection was handed out although a timeout is configured: if that entry had expired, expiry is what
+        # the counterexample is about; the replay reduces it to that one entry (same shareability, expired, open)
+        k = r.f[0].cid
+        dv = m.eval(ctx.d, model_completion=True).as_long()
+        age = m.eval(ctx.now - ents[k][0], model_completion=True).as_long()
+        if dv > 0 and age > dv and flags[k] == "1":
+            return {"family": "pool_idle_expiry", "share": "1" if getattr(ctx, "share", False) else "0", "timeout_ms": 40, "gap_ms": 250,
+                    "note": f"reduced from {len(ents)} idle entries to the one handed out"}
+    if len(ents) == 1 and flags == ["1"] and getattr(ctx, "has_to", False):
+        # a single open entry and a timeout: expiry is what the counterexample is about.  The replay keeps the
+        # side of the deadline the solver chose, with a wide margin (40 ms against 250 ms)
+        dv = m.eval(ctx.d, model_completion=True).as_long()
+        age = m.eval(ctx.now - ents[0][0], model_completion=True).as_long()
+        share = "1" if getattr(ctx, "share", False) else "0"
+        if dv == 0:
+            return {"family": "pool_idle_expiry", "share": share, "timeout_ms": 0, "gap_ms": 120}
+        if age > dv:
+            return {"family": "pool_idle_expiry", "share": share, "timeout_ms": 40, "gap_ms": 250}
+        return {"family": "pool_idle_expiry", "share": share, "timeout_ms": 2000, "gap_ms": 60}
+    if flags and "0" in flags and not getattr(p.ctx, "has_to", False):
+        return {"family": "pool_idle_closed", "open": "".join(flags)}
+    if flags and "0" in flags:
+        return {"family": "pool_idle_closed", "open": "".join(flags), "note": "idle_timeout left out of the replay"}
+    return {"family": "pool_release", "max_idle": 8, "burst": 2}
+
+
+def judge_pop(scn, out):
+    if out.get("result", "").startswith(("panic", "crash")):
+        return True
+    if "input_error" in out:
+        return None
+    if scn.get("family") == "pool_idle_expiry":
+        return out.get("dials") != out.get("expected_dials") or out.get("r0") != "200" or out.get("r1") != "200"
+    if scn.get("family") == "pool_idle_closed":
+        return out.get("dials_second") != out.get("expected_dials") or out.get("probes_ok") != out.get("probes")
+    if "discarded" in scn.get("claim", "") and int(out.get("dials_second", "0")) > 0:
+        return True
+    return None
+
+
 def extract_release(p, m):
     """the release-path counterexamples that have a public-API replay: a closed connection handed
     back (delivered to a waiting request), or an open one not kept"""
@@ -166,7 +217,12 @@ def obligations(prog, src, tier, seed, which, select=None):
             props.append(("push for one origin consumed another origin's waiter", len(waiters(inner, 2)) == 1))
             props.append(("connection delivered to a waiter of a different origin", all(tag.startswith("A") for tag, _ in delivered)))
             props.append(("in-flight marker of another origin cleared", 2 in connecting(inner)))
-        props.append(("in-flight marker not cleared by the arriving connection", 1 not in connecting(inner)))
+        if ctx.share:
+            props.append(("in-flight marker not cleared by the arriving multiplexed connection (the attempt is over)", 1 not in connecting(inner)))
+        elif which == "C04":
+            # a non-shareable connection is one that some request released: it is not the outcome of the in-flight
+            # attempt, whose marker must stay (otherwise the attempt's followers can never be released)
+            props.append(("a released non-multiplexed connection cleared the in-flight marker of an attempt it has nothing to do with (requests following that attempt would never be released)", 1 in connecting(inner)))
         alive = [w.alive for w in ctx.ws]
         n7_idle = sum(1 for c in A_idle if c.cid == 7)
         if not ctx.share:
@@ -200,13 +256,15 @@ def obligations(prog, src, tier, seed, which, select=None):
 
     def extract_push(p, m):
         ctx = p.ctx
+        if which == "C04" and not ctx.share and 1 not in connecting(ctx.inner_cell.v):
+            return {"family": "pool_preempted_owner", "cont": 0, "c": "h2"}
         return {"family": "pool_release", "max_idle": ctx.max_idle, "idle_before": ctx.ni, "waiters": ctx.nw, "shareable": int(ctx.share)}
 
     obs.append({"name": f"{which.lower()}_pool_push_step", "family": "pool_push", "funcs": ["client::pool::PoolInner::push", "client::pool::idle::IdleConnections::push", "client::pool::Pooled::take"],
                 "bound": "pre-state: 0..2 waiters for the origin (each still waiting or gone: symbolic), 0..2 idle entries, shareable or not, another origin populated or not, max_idle_per_host in {0,1,2,8} >= current idle count",
                 "doc": "one push from an arbitrary bounded valid state: non-shareable connection ends in exactly one place (first live waiter, else idle list); shareable: every live waiter gets a zero-token handle and the connection is kept; other origins untouched; idle count <= max_idle_per_host",
                 "run": run_push, "check": check_push, "crosscheck": False, "max_paths": 20000, "cex_extract": extract_push,
-                "judge": lambda scn, out: out.get("result", "").startswith(("panic", "crash")) or int(out.get("idle_after", "0")) > int(scn["max_idle"])})
+                "judge": lambda scn, out: out.get("result", "").startswith(("panic", "crash")) or (out.get("rc") == "timeout" if scn.get("family") == "pool_preempted_owner" else int(out.get("idle_after", "0")) > int(scn["max_idle"]))})
 
     # ------------------------------------------------------------------------------------------------
     # PoolInner::pop
@@ -215,10 +273,11 @@ def obligations(prog, src, tier, seed, which, select=None):
         ni = ctx.choose([(True, k) for k in (0, 1, 2, 3)], "idle")
         has_to = ctx.choose([(True, False), (True, True)], "idle_timeout set")
         with_b = ctx.choose([(True, False), (True, True)], "other origin populated")
+        share = ctx.choose([(True, False), (True, True)], "idle connections shareable (HTTP/2)") if ni else False
         d = z3.Int("idle_timeout")
         ctx.assume(d >= 0)
-        ctx.ni, ctx.has_to, ctx.with_b, ctx.d = ni, has_to, with_b, d
-        inner = build_inner(ctx, 0, ni, False, with_b, False, 8, idle_timeout=d if has_to else None)
+        ctx.ni, ctx.has_to, ctx.with_b, ctx.d, ctx.share = ni, has_to, with_b, d, share
+        inner = build_inner(ctx, 0, ni, share, with_b, False, 8, idle_timeout=d if has_to else None)
         ctx.inner_cell = Cell(inner, "inner")
         return ctx.exec_fn(f_pop, [Ref(ctx.inner_cell), token(1)])
 
@@ -256,8 +315,7 @@ def obligations(prog, src, tier, seed, which, select=None):
                 "bound": "0..3 idle entries released at symbolic non-decreasing instants, each open/closed (symbolic), idle_timeout None or any duration >= 0 (incl. zero), pop at any later instant, another origin populated or not",
                 "doc": "one pop from an arbitrary bounded state returns the most recently released entry that is open and not idle for longer than the timeout, None only if there is none; discards what it skipped; other origins untouched",
                 "run": run_pop, "check": check_pop, "crosscheck": False, "max_paths": 20000,
-                "cex_extract": lambda p, m: {"family": "pool_release", "max_idle": 8, "burst": 2},
-                "judge": lambda scn, out: out.get("result", "").startswith(("panic", "crash")) or (("discarded" in scn.get("claim", "")) and int(out.get("dials_second", "0")) > 0) or None})
+                "cex_extract": extract_pop, "judge": judge_pop})
 
     # ------------------------------------------------------------------------------------------------
     # release path: Pooled::drop -> WhenReady::{poll, drop}
@@ -337,6 +395,7 @@ def obligations(prog, src, tier, seed, which, select=None):
         should = z3.And(open_now, z3.BoolVal(ctx.tok != 0 and ctx.pool_alive))
         props.append(("a closed connection, or one the pool does not manage, was handed back to the pool", z3.Implies(z3.BoolVal(in_idle > 0), should)))
         delivered = any(e[0] == "oneshot_delivered" for e in ctx.events)
+        props.append(("a closed connection, or one the pool does not manage, was handed to a waiting request", z3.Implies(z3.BoolVal(delivered), should)))
         props.append(("an open pool-managed connection was neither kept for reuse nor handed to a waiting request after release", z3.Implies(should, z3.BoolVal(in_idle == 1 or delivered))))
         props.append(("connection stored twice", in_idle <= 1))
         return props
@@ -424,7 +483,9 @@ def obligations(prog, src, tier, seed, which, select=None):
     obs.append({"name": f"{which.lower()}_pool_checkout_step", "family": "pool_checkout", "funcs": ["client::pool::Pool::checkout", "client::pool::key::TokenMap::insert", "client::pool::PoolInner::pop", "client::pool::checkout::Checkout::new"],
                 "bound": "origin seen before or new, 0..2 idle entries (open/closed symbolic), an attempt in flight or not, multiplexed request or not, both continue_after_preemption settings, a second origin populated",
                 "doc": "checkout reuses an open idle connection instead of dialing; otherwise registers as waiter; with an attempt in flight it becomes a pure waiter (no second dial); a multiplexed dial marks the origin as connecting; everything is keyed by the origin's own token",
-                "run": run_checkout, "check": check_checkout, "crosscheck": False, "max_paths": 20000})
+                "run": run_checkout, "check": check_checkout, "crosscheck": False, "max_paths": 20000,
+                "cex_extract": lambda p, m: extract_pop(p, m) if "0" in "".join("1" if z3.is_true(m.eval(c.is_open, model_completion=True)) else "0" for _, c in p.ctx.idle_pre if z3.is_expr(c.is_open)) else None,
+                "judge": judge_pop})
 
     def run_register(ctx):
         share = ctx.choose([(True, False), (True, True)], "shareable")
